@@ -7,7 +7,7 @@ open Driver
 def dispatch (c : Case) : Verdict :=
   let fam := c.op
   if fam.startsWith "hex" || fam.startsWith "b64" || fam == "blk.enc" || fam == "blk.dec" then Driver.Codec.handle c
-  else if fam == "conv" || fam == "blk.conv" then Driver.Conv.handle c
+  else if fam == "conv" || fam == "blk.conv" || fam == "reval" then Driver.Conv.handle c
   else { corr := false, why := "no handler for op " ++ c.op }
 
 structure Stats where
